@@ -79,9 +79,10 @@ def main():
     if out.strip():
         print("REFUSING: /repo has uncommitted changes:\n" + out)
         return 2
+    if os.path.exists(os.path.join(src, "patch_head.diff")):
+        # the same change ported to /repo's HEAD (needed where a later fix: commit touched the same lines)
+        patch = os.path.join(src, "patch_head.diff")
     rc, out = sh(["git", "-C", "/repo", "apply", "--check", patch])
-    if rc != 0:
-        rc, out = sh(["git", "-C", "/repo", "apply", "--3way", "--check", patch])
     report["applies_to_repo_head"] = rc == 0
     results = {}
     if rc == 0:
@@ -104,7 +105,7 @@ def main():
         dst = os.path.join(VERIF, "seeded", "%s-%s" % (pid, args.variant))
         if os.path.abspath(src) != dst:
             os.makedirs(dst, exist_ok=True)
-            for f in ("patch.diff", "demo.py", "notes.md"):
+            for f in ("patch.diff", "patch_head.diff", "demo.py", "notes.md"):
                 if os.path.exists(os.path.join(src, f)):
                     shutil.copy(os.path.join(src, f), os.path.join(dst, f))
         meta_path = os.path.join(dst, "meta.json")
